@@ -221,7 +221,8 @@ def run_and_snapshot(cls: type, inputs: Optional[dict], pause_at: Optional[int],
     prev, programs.ENV = programs.ENV, world
     ticks = 0
     try:
-        proc = cls(inputs=copy.deepcopy(inputs), pid='p7', loop=loop)
+        # with some inputs the pid is left to the library (a UUID, which has its own YAML representation)
+        proc = cls(inputs=copy.deepcopy(inputs), pid=None if inputs and 'b' in inputs else 'p7', loop=loop)
         if not is_generated:
             world.attach(proc)
         world.snap(proc, 'constructed')
